@@ -282,7 +282,7 @@ PROPS = {
         partial=["listener combinations (TLS, socket activation) of the running binary are not enumerated"],
     ),
     "C05": dict(
-        modules=["Whawty.Props.C05", "Whawty.Props.GenCodec"],
+        modules=["Whawty.Props.C05", "Whawty.Props.GenCodec", "Whawty.Props.GenScan"],
         suites=[("hdrv+pam", "c05"), ("overlay4", "v10fd")],
         level_text="handleConnection is modelled as decode (the C13 scanner model) -> callback at most once -> one "
                    "clipped reply -> close; callback-at-most-once with exactly the decoded fields, positive-only-if, "
@@ -417,7 +417,7 @@ PROPS = {
         partial=["'on an otherwise idle agent the rewrite does happen' is observed with a 400 ms wait (scheduling), not proved"],
     ),
     "C13": dict(
-        modules=["Whawty.Props.C13", "Whawty.Props.GenCodec"],
+        modules=["Whawty.Props.C13", "Whawty.Props.GenCodec", "Whawty.Props.GenScan"],
         level_text="Wire format, round trip, over-limit refusal, re-encode = consumed prefix, fragment "
                    "independence of the bufio.Scanner loop and PAM/Go encoder agreement are Lean theorems for all "
                    "byte strings and all fragmentations a reader that makes progress produces (induction over the scanner "
